@@ -120,6 +120,151 @@ func toSwitch(file *ast.File) int {
 	return n
 }
 
+// hoist moves the init clause of `if x := f(); cond {…}` in front of the if
+// statement. The variables it defines get fresh names (x -> xH<n>) throughout
+// the if statement, so the move neither shadows nor redeclares anything.
+func hoist(file *ast.File, info *types.Info) int {
+	n := 0
+	fresh := 0
+	conv := func(list []ast.Stmt) []ast.Stmt {
+		var out []ast.Stmt
+		for _, st := range list {
+			is, ok := st.(*ast.IfStmt)
+			if !ok || is.Init == nil {
+				out = append(out, st)
+				continue
+			}
+			as, ok := is.Init.(*ast.AssignStmt)
+			if !ok || as.Tok != token.DEFINE {
+				out = append(out, st)
+				continue
+			}
+			objs := map[types.Object]string{}
+			for _, l := range as.Lhs {
+				if id, ok := l.(*ast.Ident); ok && id.Name != "_" {
+					if o := info.Defs[id]; o != nil {
+						fresh++
+						objs[o] = fmt.Sprintf("%sH%d", id.Name, fresh)
+					}
+				}
+			}
+			if len(objs) == 0 {
+				out = append(out, st)
+				continue
+			}
+			ast.Inspect(is, func(x ast.Node) bool {
+				if id, ok := x.(*ast.Ident); ok {
+					if nm, ok := objs[info.ObjectOf(id)]; ok {
+						id.Name = nm
+					}
+				}
+				return true
+			})
+			is.Init = nil
+			out = append(out, as, is)
+			n++
+		}
+		return out
+	}
+	ast.Inspect(file, func(x ast.Node) bool {
+		switch v := x.(type) {
+		case *ast.BlockStmt:
+			v.List = conv(v.List)
+		case *ast.CaseClause:
+			v.Body = conv(v.Body)
+		case *ast.CommClause:
+			v.Body = conv(v.Body)
+		}
+		return true
+	})
+	return n
+}
+
+// fold is the reverse of hoist: `x := f(); if cond {…}` becomes
+// `if x := f(); cond {…}` when every variable the assignment defines is new
+// and is used only inside the if statement.
+func fold(file *ast.File, info *types.Info) int {
+	n := 0
+	uses := map[types.Object][]token.Pos{}
+	ast.Inspect(file, func(x ast.Node) bool {
+		if id, ok := x.(*ast.Ident); ok {
+			if o := info.Uses[id]; o != nil {
+				uses[o] = append(uses[o], id.Pos())
+			}
+		}
+		return true
+	})
+	conv := func(list []ast.Stmt) []ast.Stmt {
+		var out []ast.Stmt
+		for i := 0; i < len(list); i++ {
+			st := list[i]
+			as, ok := st.(*ast.AssignStmt)
+			if !ok || as.Tok != token.DEFINE || i+1 >= len(list) {
+				out = append(out, st)
+				continue
+			}
+			is, ok := list[i+1].(*ast.IfStmt)
+			if !ok || is.Init != nil {
+				out = append(out, st)
+				continue
+			}
+			safe, any := true, false
+			for _, r := range as.Rhs {
+				// a composite literal in an if header needs parentheses
+				ast.Inspect(r, func(x ast.Node) bool {
+					switch x.(type) {
+					case *ast.CompositeLit, *ast.FuncLit:
+						safe = false
+					}
+					return safe
+				})
+			}
+			for _, l := range as.Lhs {
+				id, ok := l.(*ast.Ident)
+				if !ok {
+					safe = false
+					break
+				}
+				if id.Name == "_" {
+					continue
+				}
+				o := info.Defs[id]
+				if o == nil {
+					safe = false
+					break
+				}
+				any = true
+				for _, p := range uses[o] {
+					if p < is.Pos() || p >= is.End() {
+						safe = false
+					}
+				}
+			}
+			if !safe || !any {
+				out = append(out, st)
+				continue
+			}
+			is.Init = as
+			out = append(out, is)
+			i++
+			n++
+		}
+		return out
+	}
+	ast.Inspect(file, func(x ast.Node) bool {
+		switch v := x.(type) {
+		case *ast.BlockStmt:
+			v.List = conv(v.List)
+		case *ast.CaseClause:
+			v.Body = conv(v.Body)
+		case *ast.CommClause:
+			v.Body = conv(v.Body)
+		}
+		return true
+	})
+	return n
+}
+
 func main() {
 	dir := os.Args[1]
 	mode := "rename"
@@ -138,12 +283,17 @@ func main() {
 		for i, file := range pk.Syntax {
 			path := pk.CompiledGoFiles[i]
 			changed := false
-			if mode == "flip" || mode == "switch" {
+			if mode == "flip" || mode == "switch" || mode == "hoist" || mode == "fold" {
 				k := 0
-				if mode == "flip" {
+				switch mode {
+				case "flip":
 					k = flip(file)
-				} else {
+				case "switch":
 					k = toSwitch(file)
+				case "fold":
+					k = fold(file, pk.TypesInfo)
+				default:
+					k = hoist(file, pk.TypesInfo)
 				}
 				if k > 0 {
 					n += k
